@@ -287,10 +287,23 @@ class VariableRangeAnalysis(IRAnalysis):
         elif isinstance(lhs, IRVariable) and isinstance(rhs, IRVariable):
             lhs_range = state.get(lhs, ValueRange.top())
             rhs_range = state.get(rhs, ValueRange.top())
+            # the same word may be held as -1 in one range and as
+            # UNSIGNED_MAX in the other; intersecting bounds is only
+            # meaningful when both ranges use the same representation.
+            if not self._same_representation(lhs_range, rhs_range):
+                return state
             new_range = lhs_range.intersect(rhs_range)
             self._write_range(state, lhs, new_range)
             self._write_range(state, rhs, new_range)
         return state
+
+    @staticmethod
+    def _same_representation(a: ValueRange, b: ValueRange) -> bool:
+        if a.is_top or b.is_top or a.is_empty or b.is_empty:
+            return True
+        both_unsigned = a.lo >= 0 and b.lo >= 0
+        both_signed = a.hi <= SIGNED_MAX and b.hi <= SIGNED_MAX
+        return both_unsigned or both_signed
 
     def _apply_compare(self, inst: IRInstruction, is_true: bool, state: RangeState) -> RangeState:
         """Apply comparison-based branch refinement.
